@@ -22,9 +22,8 @@ COMMON = dict(executor="template", fuel=0, frame_check=False, may_raise=True, pr
 W.contract(
     "vyxal/helpers.py::scanl",
     params=dict(function=VAL, vector=ListOf(VAL), ctx=VAL), result=VAL, yields=VAL, setup=_prim_setup("scan"),
-    requires=["len(vector) >= 1"],
-    ensures=["items(result) == scans(function, vector)"],
-    loops={0: dict(peel=1,
+    ensures=["implies(len(vector) >= 1, items(result) == scans(function, vector))"],
+    loops={0: dict(peel="or-empty",
                    inv=["_k >= 1", "working == folds(function, vector[:_k])", "_yielded == scans(function, vector[:_k - 1])"],
                    hints_end=["unfold(folds(function, vector[:_k]))", "unfold(scans(function, vector[:_k - 1]))"],
                    asserts_end=["vector[:_k][:-1] == vector[:_k - 1]", "vector[:_k][-1] == vector[_k - 1]", "vector[:_k - 1][:-1] == vector[:_k - 2] or _k < 2"],
@@ -39,8 +38,7 @@ W.contract(
 W.contract(
     "vyxal/helpers.py::foldl",
     params=dict(function=VAL, vector=ListOf(VAL), initial=("const", None), ctx=VAL), result=VAL, setup=_prim_setup("fold"),
-    requires=["len(vector) >= 1"],
-    ensures=["result == folds(function, vector)"],
+    ensures=["implies(len(vector) >= 1, result == folds(function, vector))", "implies(len(vector) == 0, result == 0)"],
     loops={0: dict(peel=1, inv=["_k >= 1", "working == folds(function, vector[:_k])"],
                    hints_end=["unfold(folds(function, vector[:_k]))"],
                    asserts_end=["vector[:_k][:-1] == vector[:_k - 1]", "vector[:_k][-1] == vector[_k - 1]"],
